@@ -101,6 +101,10 @@ func (x *Exec) stdlib(s *State, in *ssa.Call, f *ssa.Function, args []Val) Val {
 		return x.freshVal(s, "str", types.Typ[types.String])
 	case "strings.NewReplacer", "hash/fnv.New64a":
 		r := x.alloc(s, "obj")
+		if name == "hash/fnv.New64a" {
+			bufs := x.heapSym(s, "ghost:buf", SArray(SInt, SStr))
+			s.assume(Eq(Select(bufs, r, SStr), T{"str.empty", SStr})) // nothing written yet
+		}
 		if isIface(res.At(0).Type()) {
 			return scalar(mk(SIface, "iref", IntLit(int64(x.p.tag(types.Typ[types.UnsafePointer]))), r))
 		}
@@ -108,11 +112,31 @@ func (x *Exec) stdlib(s *State, in *ssa.Call, f *ssa.Function, args []Val) Val {
 	case "errors.New", "fmt.Errorf":
 		r := x.alloc(s, "err")
 		return scalar(mk(SIface, "iref", IntLit(9999), r))
-	case "(*bytes.Buffer).Write", "(*bytes.Buffer).WriteString", "(*bytes.Buffer).WriteByte":
-		x.ghostBump(s, "bytes.Buffer")
+	case "(*bytes.Buffer).WriteString", "(*bytes.Buffer).WriteByte":
+		// the content of a buffer is the ghost string buf(b)
+		bufs := x.heapSym(s, "ghost:buf", SArray(SInt, SStr))
+		cur := Select(bufs, args[0].T, SStr)
+		piece := args[1].T
+		if name == "(*bytes.Buffer).WriteByte" {
+			if c, ok := in.Common().Args[1].(*ssa.Const); ok && c.Value != nil {
+				piece = x.strLit(s, string(rune(c.Int64())))
+			} else {
+				piece = sfun("bytestr_", SStr, args[1].T)
+			}
+		}
+		x.heapSet(s, "ghost:buf", Store(bufs, args[0].T, x.strCat(s, cur, piece)))
+		return fresh()
+	case "(*bytes.Buffer).Write":
+		x.havocKey(s, "ghost:buf")
 		return fresh()
 	case "(*bytes.Buffer).Bytes":
-		return fresh()
+		// the bytes of the buffer: a slice whose content, read as a string, is buf(b)
+		r := fresh()
+		if r.K == vSlice {
+			bufs := x.heapSym(s, "ghost:buf", SArray(SInt, SStr))
+			s.assume(Eq(sfun("bytes_str", SStr, r.Arr), Select(bufs, args[0].T, SStr)))
+		}
+		return r
 	case "(*regexp.Regexp).MatchString":
 		return scalar(sfun("regexp.Match_", SBool, args[0].T, args[1].T))
 	case "(*regexp.Regexp).NumSubexp":
@@ -167,7 +191,15 @@ func (x *Exec) stdlib(s *State, in *ssa.Call, f *ssa.Function, args []Val) Val {
 				as = append(as, a.T)
 			}
 		}
-		return scalar(sfun(strings.ReplaceAll(name, "/", ".")+"_", SBool, as...))
+		r := sfun(strings.ReplaceAll(name, "/", ".")+"_", SBool, as...)
+		if name == "unicode.IsSpace" && len(as) == 1 && as[0].Sort == SBV32 {
+			// facts of the library: the four XPath whitespace characters are spaces, NUL is not
+			for _, c := range []uint64{0x20, 0x09, 0x0a, 0x0d} {
+				s.assume(Implies(Eq(as[0], BVLit(c, 32)), r))
+			}
+			s.assume(Implies(Eq(as[0], BVLit(0, 32)), Not(r)))
+		}
+		return scalar(r)
 	case "unicode/utf8.DecodeRuneInString":
 		r := x.freshVal(s, "rune", types.Typ[types.Rune])
 		sz := x.fresh(s, "rsize", x.intSort())
